@@ -166,6 +166,27 @@ def structural(run):
                 problems.append(f"name and value are not compared with `==` ({texts[1][:20]!r})")
             if side == "support" and len(texts) > 1 and texts[1].strip() not in ("", "="):
                 problems.append(f"unexpected text between name and value: {texts[1][:20]!r}")
+            if side == "type":
+                # preprocessor conditionals open at the assertion: nothing but the header's own include guard may be
+                pre = []
+                for it_ in ej.flat_outputs(tree):
+                    if it_[0] == "data":
+                        pre.append(it_[1])
+                        if re.search(rx + r"\Z", it_[1]) or re.search(rx, it_[1]):
+                            break
+                    else:
+                        pre.append("X")
+                text = "".join(pre)
+                stack = []
+                for line in text.splitlines():
+                    l = line.strip()
+                    if re.match(r"#\s*(if|ifdef|ifndef)\b", l):
+                        stack.append(l)
+                    elif re.match(r"#\s*endif\b", l) and stack:
+                        stack.pop()
+                extra_pp = [d for d in stack if not re.match(r"#\s*ifndef\s+\S+$", d)] + (stack[1:] if len([d for d in stack if re.match(r"#\s*ifndef\s+\S+$", d)]) > 1 else [])
+                if extra_pp:
+                    problems.append(f"the assertions sit inside preprocessor conditionals other than the include guard: {extra_pp}")
             run.add_check(name, not problems, "E-J structure", 0, f"{exprs[:2]} guards={list(guards)}")
             if problems:
                 run.fail(report.Failure(name, "post", f"{rel}: " + "; ".join(problems), {"exprs": exprs, "texts": texts[:3]}, False))
